@@ -734,8 +734,10 @@ Definition status_clause2 (p : prog) (c : cfg) (tr : list event) (r : res) : boo
   match failing_ends p c tr with
   | [(a, i)] =>
       if reaches_root p c a then
-        match r with RErr (ETaskRun (Some n)) => Nat.eqb n (exit_of p c a i) | _ => false end
-      else if no_guard_errors p c && negb (existsb (fun e => match e with EvSkipping _ _ => true | _ => false end) tr)
+        if only_cmd_errors p c && negb (existsb (fun e => match e with EvSkipping _ _ => true | _ => false end) tr)
+        then match r with RErr (ETaskRun (Some n)) => Nat.eqb n (exit_of p c a i) | _ => false end
+        else match r with RErr _ => true | ROk => false end
+      else if only_cmd_errors p c && negb (existsb (fun e => match e with EvSkipping _ _ => true | _ => false end) tr)
       then match r with ROk => true | _ => false end else true
   | [] => match r with RErr (ETaskRun (Some _)) | RErr (EExit _) => false | _ => true end
   | _ => true
